@@ -2,6 +2,7 @@ import YtkModel.Wire
 import YtkModel.PipelineData
 import YtkDriver.HeapScript
 import YtkDriver.TplFuncsOps
+import YtkDriver.OpsExtOps
 open Lean
 
 namespace Ytk.C13
@@ -178,6 +179,9 @@ def handle : Wire.Handler := fun op a => do
   | "tplFuncs" =>
     -- the template functions of pipeline/template_engine_funcs.go (YtkDriver/TplFuncsOps.lean)
     TplFuncsOps.run a
+  | "opsExt" =>
+    -- ExecOp / TemplateFileOp / Html2DomOp / ValOrRef decoding (YtkDriver/OpsExtOps.lean)
+    OpsExtOps.run a
   | _ => throw s!"C13: unknown op {op}"
 
 end Ytk.C13
